@@ -528,6 +528,46 @@ func (e *Engine) mulCall(call ssa.CallInstruction, cal *ssa.Function, mode Mode,
 	for _, st := range states {
 		sub := e.Enter(st.ctx, call, cal)
 		calts := e.Paths(cal, sub, mode)
+		if loop != "" && len(calts) > 1 {
+			// inside a loop the callee's way of succeeding may differ from iteration
+			// to iteration: "for every i: A(i) or B(i)", not "(for every i: A(i)) or
+			// (for every i: B(i))". One gate carries the disjunction of the callee's
+			// alternatives (each a conjunction of its plain gates).
+			var disj *Term
+			simple := true
+			for _, ca := range calts {
+				var conj *Term
+				for _, cg := range ca.Gates {
+					if cg.Loop != "" || cg.Pred == nil {
+						simple = false
+						break
+					}
+					if cg.Pred.Op == "ok" {
+						continue
+					}
+					if conj == nil {
+						conj = cg.Pred
+					} else {
+						conj = e.mk(OpBin, "&&", nil, conj, cg.Pred)
+					}
+				}
+				if conj == nil {
+					conj = C("true")
+				}
+				if disj == nil {
+					disj = conj
+				} else {
+					disj = e.mk(OpBin, "||", nil, disj, conj)
+				}
+			}
+			if simple && disj != nil {
+				gs := append([]*Gate{}, st.gates...)
+				gs = append(gs, &Gate{Pred: e.mk("ok", shortFn(cal), nil), Pos: call.Pos(), Fn: call.Parent(), Ctx: st.ctx, Call: call, Loop: loop})
+				gs = append(gs, &Gate{Pred: disj, Pos: call.Pos(), Fn: call.Parent(), Ctx: st.ctx, Loop: loop})
+				out = append(out, state{gs, st.ctx})
+				continue
+			}
+		}
 		for _, ca := range calts {
 			gs := append([]*Gate{}, st.gates...)
 			gs = append(gs, &Gate{Pred: e.mk("ok", shortFn(cal), nil), Pos: call.Pos(), Fn: call.Parent(), Ctx: st.ctx, Call: call, Loop: loop})
@@ -1088,7 +1128,7 @@ func expandFiniteLoops(gates []*Gate) []*Gate {
 			continue
 		}
 		n, ok := constInt(StripConv(p.Args[0]))
-		if !ok || n < 0 || n > 64 || !IsSeqLen(p.Args[0]) {
+		if !ok || n < 0 || n > 64 || !(IsSeqLen(p.Args[0]) || indexesTable(gates, it, int(n))) {
 			continue
 		}
 		id := it.Name
@@ -1240,7 +1280,7 @@ func unrollFiniteExits(a *Alt) []*Alt {
 			continue
 		}
 		k, ok := constInt(StripConv(p.Args[1]))
-		if !ok || k <= 0 || k > 32 || !IsSeqLen(p.Args[1]) {
+		if !ok || k <= 0 || k > 32 || !(IsSeqLen(p.Args[1]) || indexesTable(a.Gates, x, int(k))) {
 			continue
 		}
 		it, n = x, int(k)
@@ -1558,4 +1598,30 @@ func (e *Engine) splitPoint(g *Graph, ctx *Ctx, mode Mode) *ssa.If {
 		}
 	}
 	return nil
+}
+
+// indexesTable: some gate indexes a finite literal sequence of exactly n rows
+// with the loop counter it (the loop runs over a table even though its bound
+// is written as a plain constant, as for an array literal).
+func indexesTable(gates []*Gate, it *Term, n int) bool {
+	its := it.String()
+	found := false
+	for _, g := range gates {
+		if g.Pred == nil || found {
+			continue
+		}
+		g.Pred.Walk(func(x *Term) bool {
+			if found {
+				return false
+			}
+			if x.Op == OpIndex && len(x.Args) == 2 && StripConv(x.Args[1]).String() == its {
+				if els, ok := SeqElems(x.Args[0]); ok && len(els) == n {
+					found = true
+					return false
+				}
+			}
+			return true
+		})
+	}
+	return found
 }
